@@ -692,7 +692,7 @@ MANIFEST = {
             "validated before the first store (so a rejected assignment leaves the object unchanged), the documented shape agrees with the validator "
             "configuration, each passed constraint is consulted on every accepting path of the validator (path enumeration with the call site's "
             "literal arguments), None results never reach arithmetic, constructors go through the setters, and stored arrays are fresh copies. "
-            "Value-level read-back equality is not decided.",
+            "Value-level read-back equality is not decided. Also decided: documented relational constraints are enforced, every validator has a type gate, validators return fresh arrays.",
     "design_ref": "DESIGN.md §3 C17",
     "note": "Trusted: python ast; validators are recognised by name (check_*/validate_*) in magpylib._src.input_checks; triaged lazy style validation.",
     "technique": "static analysis: taint-style dataflow on a structured CFG, path enumeration with partial evaluation, table cross-check, alias analysis",
